@@ -11,6 +11,22 @@ EXN = {'ValueError': 'ValueError', 'IndexError': 'IndexError', 'KeyError': 'KeyE
        'UnboundLocalError': 'UnboundLocalError', 'TypeError': 'TypeError', 'AttributeError': 'AttributeError'}
 
 
+def k_comparable(case):
+    """False for cases the correspondence does not compare: an INVALID `errors` value — the statements prescribe nothing for it (whether
+    ValueError comes at once or only when a non-finite value turns up is free); such cases are still generated and run for the oracles"""
+    if case.get('kind') == 'hist':
+        return all(c['opts']['errors'] in ERRMODES for c in case['calls'] if 'opts' in c)
+    return case.get('opts', {}).get('errors', 'raise') in ERRMODES
+
+
+def canon_log(evpos, t_call, n):
+    """The hook / pass events (kind, POSITION, iteration) re-spelled the way the CALLER spelled the period: the statements do not say
+    whether a hook sees t or t + len(span) for a negative t, so the observation is independent of it (the model logs t as passed)."""
+    if t_call is not None and t_call < 0:
+        return [[k, (p - n if p == t_call + n else p), it] for k, p, it in evpos]
+    return [list(e) for e in evpos]
+
+
 def nextafter(x, y):
     return math.nextafter(x, y)
 
@@ -46,7 +62,7 @@ def impl_solve_t(case):
         'vals': [[lib.fhex(x) for x in m.__dict__['_V%d' % i]] for i in range(case['nvars'])],
         'status': [str(x) for x in m.__dict__['_status']],
         'iters': [int(x) for x in m.__dict__['_iterations']],
-        'log': m.__dict__['_evlog'],
+        'log': canon_log(m.__dict__['_evpos'], model_t(case), n),
         'passvecs': [[lib.fhex(x) for x in v] for v in m.__dict__['_passvecs']],
         'raised': m.__dict__['_raised'],
         'blocked': [[b[0], b[1], lib.fhex(float.fromhex(b[2]) if b[2].startswith(('0x', '-0x')) else float(b[2]))] for b in m.__dict__['_blocked']],
@@ -407,7 +423,7 @@ def observe_state(m, nvars, names=None):
         'vals': [[lib.fhex(x) for x in m.__dict__['_' + nm]] for nm in names],
         'status': [str(x) for x in m.__dict__['_status']],
         'iters': [int(x) for x in m.__dict__['_iterations']],
-        'log': m.__dict__['_evlog'],
+        'log': [list(e) for e in m.__dict__['_evpos']],          # positions (solve / solve_period / iter_periods hand positions on)
         'passvecs': [[lib.fhex(x) for x in v] for v in m.__dict__['_passvecs']],
         'raised': m.__dict__['_raised'],
     }
@@ -610,10 +626,12 @@ def recording_class(Base):
 
         def solve_t_before(self, t, *, errors='raise', catch_first_error=True, iteration=None, **kwargs):
             self.__dict__['_evlog'].append(['before', int(t), int(iteration)])
+            self.__dict__['_evpos'].append(['before', int(t if t >= 0 else t + len(self.span)), int(iteration)])
             super().solve_t_before(t, errors=errors, catch_first_error=catch_first_error, iteration=iteration, **kwargs)
 
         def _evaluate(self, t, *, errors='raise', catch_first_error=True, iteration=None, **kwargs):
             self.__dict__['_evlog'].append(['pass', int(t), int(iteration)])
+            self.__dict__['_evpos'].append(['pass', int(t if t >= 0 else t + len(self.span)), int(iteration)])
             try:
                 super()._evaluate(t, errors=errors, catch_first_error=catch_first_error, iteration=iteration, **kwargs)
             except Exception as e:
@@ -625,6 +643,7 @@ def recording_class(Base):
 
         def solve_t_after(self, t, *, errors='raise', catch_first_error=True, iteration=None, **kwargs):
             self.__dict__['_evlog'].append(['after', int(t), int(iteration)])
+            self.__dict__['_evpos'].append(['after', int(t if t >= 0 else t + len(self.span)), int(iteration)])
             super().solve_t_after(t, errors=errors, catch_first_error=catch_first_error, iteration=iteration, **kwargs)
     return Rec
 
@@ -642,7 +661,7 @@ def impl_solve_parsed(case):
         for nm, vals in case['init'].items():
             if nm in m.names:
                 m.__dict__['_' + nm][:] = [lib.unhex(x) for x in vals]
-        for k in ('_evlog', '_passvecs', '_raised', '_cols'):
+        for k in ('_evlog', '_evpos', '_passvecs', '_raised', '_cols'):
             m.__dict__[k] = []
         return m
     m0 = fresh()
@@ -720,7 +739,7 @@ def impl_hist(case):
                 return ids[j]
         return -1
     outs, snaps, steps = [], [], []
-    KEYS = ('_evlog', '_passvecs', '_raised', '_blocked', '_warn_stored')
+    KEYS = ('_evpos', '_passvecs', '_raised', '_blocked', '_warn_stored')
     for k, call in enumerate(case['calls']):
         if call['api'] in EDITS:
             m = _apply_edit(m, call, st, n)
@@ -750,7 +769,8 @@ def impl_hist(case):
             outs.append(['raise', type(e).__name__, type(c).__name__ if c is not None else None])
         snaps.append([str(x) for x in m.__dict__['_status']])
         sl = {key: m.__dict__.get(key, [])[marks[key]:] for key in KEYS}
-        steps.append({'pre': list(pre), 'post': list(_hist_state(m, case['nvars'])), 'log': sl['_evlog'],
+        steps.append({'pre': list(pre), 'post': list(_hist_state(m, case['nvars'])),
+                      'log': canon_log(sl['_evpos'], call['t'] if call['api'] == 'solve_t' else None, len(pre[1])),
                       'passvecs': [[lib.fhex(x) for x in v] for v in sl['_passvecs']], 'raised': sl['_raised'],
                       'blocked': [[b[0], b[1], lib.fhex(float.fromhex(b[2]) if b[2].startswith(('0x', '-0x')) else float(b[2]))] for b in sl['_blocked']],
                       'warn_stored': sl['_warn_stored']})
@@ -790,6 +810,7 @@ def impl_hist(case):
             twin_diff.append([k, got[:4], want, _hist_state(m, case['nvars'])[1:], _hist_state(tw, case['nvars'])[1:]])
     obs = {'outs': outs, 'snaps': snaps, 'ids': span_ids(make_span(st, case['n']), case['n'], st), 'twin_diff': twin_diff, 'steps': steps}
     obs.update(observe_state(m, case['nvars']))
+    obs['log'] = [e for st_ in steps if st_ is not None for e in st_['log']]      # every step in its caller's spelling
     return obs
 
 
